@@ -142,6 +142,42 @@ theorem C18_book_frame (s : SH) (ops : List Op) :
 example : (([Op.add [1, 2, 1], .rem [1], .add [3, 3]].foldl applyOp ⟨[0], 0, none, none⟩).interceptors) = [0, 2, 3, 3] := by
   decide
 
+/-! ## bookkeeping never writes into existing storage -/
+
+/-- **"affect exactly the named interceptors", at the level of Go slices.**  Whatever slice the instance currently
+    holds — in particular the CALLER's own slice handed to `NewSimpleHTTPWithClientAndInterceptors(client, defaults...)`, with
+    or without spare capacity — any history of Add/Remove/Clear (i) leaves every backing array that existed before with
+    exactly its content, so the caller's slice and every other instance built from it read as before, and (ii) makes
+    the instance's list the one `Spec.book` prescribes. -/
+theorem C18_storage (st : Store) (sl : Sl) (ops : List Op) :
+    (∀ other : Sl, other.arr < st.length → readS (ops.foldl applyOpS (st, sl)).1 other = readS st other) ∧
+    readS (ops.foldl applyOpS (st, sl)).1 (ops.foldl applyOpS (st, sl)).2 = Spec.book (readS st sl) ops := by
+  suffices h : Grows st (ops.foldl applyOpS (st, sl)).1 ∧
+      readS (ops.foldl applyOpS (st, sl)).1 (ops.foldl applyOpS (st, sl)).2 = Spec.book (readS st sl) ops from
+    ⟨fun other ho => h.1.read other ho, h.2⟩
+  induction ops generalizing st sl with
+  | nil => exact ⟨Grows.refl st, rfl⟩
+  | cons op ops ih =>
+    rw [List.foldl_cons]
+    obtain ⟨g1, r1⟩ := applyOpS_spec (st, sl) op
+    obtain ⟨g2, r2⟩ := ih (applyOpS (st, sl) op).1 (applyOpS (st, sl) op).2
+    refine ⟨g1.trans g2, ?_⟩
+    rw [r2, r1]
+    have := C18_book ⟨readS st sl, 0, none, none⟩ [op]
+    simp only [List.foldl_cons, List.foldl_nil] at this
+    rw [this]
+    cases op <;> rfl
+
+/-- non-vacuity / the seeded defect on the model: the caller's slice `[1, 2]` with two spare slots, Clear then Add 3 —
+    the current mechanism leaves the caller's array alone; a `[:0]`-truncating Clear followed by the built-in `append`
+    would write 3 over the caller's 1 -/
+example :
+    let st : Store := [[1, 2, 0, 0]]
+    let r := [Op.clear, .add [3]].foldl applyOpS (st, ⟨0, 2⟩)
+    readS r.1 ⟨0, 2⟩ = [1, 2] ∧ readS r.1 r.2 = [3] ∧
+    -- in-place variant: same slice header with len 0, then write at index 0 of the SAME array
+    (([[1, 2, 0, 0]] : Store).map (fun a => a.set 0 3))[0]? = some [3, 2, 0, 0] := by decide
+
 /-! ## SetHTTPClient: never wrapped twice, never recursive -/
 
 /-- the invariant: the current client's transport is the SimpleHTTP, the wrapped transport is not -/
@@ -181,6 +217,23 @@ theorem C18_setHTTPClient_inv (s : SH) (cs : Clients) (c : Nat) (hc : c < cs.len
       show (cs.set c (some (((cs[c]?).getD none).getD Tr.dflt)))[c]? = some (some Tr.self)
       rw [heq]; simp [hc]
     · rw [h1] at heq; simp at heq
+
+/-- `SetHTTPClient(c)` touches no client but `c` (so instances that own distinct clients — as every instance made by
+    `NewSimpleHTTP()` / `NewSimpleAPI(url)` does, each with its fresh `&http.Client{}` — cannot chain into each other:
+    the invariant of one instance only mentions its own client) -/
+theorem C18_client_frame (s : SH) (cs : Clients) (c k : Nat) (hk : c ≠ k) :
+    (setHTTPClient s cs c).2[k]? = cs[k]? := by
+  unfold setHTTPClient
+  by_cases h : some (((cs[c]?).getD none).getD Tr.dflt) ≠ s.lastTransport
+  · simp only [h, ne_eq, not_false_eq_true, if_true]
+    simp [List.getElem?_set_ne hk]
+  · simp only [h, if_false]
+    simp [List.getElem?_set_ne hk]
+
+/-- … and the invariant of an instance survives anything done to OTHER clients (another instance's constructor or
+    `SetHTTPClient`, a fresh client being allocated) -/
+theorem C18_inv_other_clients (s : SH) (cs cs' : Clients) (h : Inv s cs) (hsame : cs'[s.client]? = cs[s.client]?) :
+    Inv s cs' := ⟨by rw [hsame]; exact h.client, h.last, h.wrapped⟩
 
 /-- a history: bookkeeping operations and `SetHTTPClient` calls in any order -/
 inductive HOp
